@@ -1,8 +1,12 @@
 #!/bin/bash
-# try_seed.sh <patch.diff> <ID> [tier]  -- applies a seeded change to /repo, runs the check, reverts.
+# try_seed.sh <patch.diff> <ID> [tier]  -- runs a check against a scratch copy of /repo with a seeded change applied
+# (/repo itself is not touched, so other checks can run meanwhile)
 P=$1; ID=$2; TIER=${3:---quick}
-cd /repo && git apply "$P" || { echo "patch does not apply"; exit 2; }
-cd /verif && bin/check $ID $TIER 2>/dev/null | grep -E "^(VIOLATION|KNOWN|C[0-9]+ )|signature" | head -8
+W=/var/tmp/seedrepo.$$
+rm -rf $W; mkdir -p $W
+rsync -a --exclude='.git' --exclude='*.o' --exclude='*.lo' --exclude='*.la' --exclude='.libs' --exclude='.deps' /repo/ $W/
+( cd $W && patch -p1 -s < "$P" ) || { echo "patch does not apply"; rm -rf $W; exit 2; }
+cd /verif && VERIF_REPO=$W bin/check $ID $TIER 2>/dev/null | grep -E "^(VIOLATION|KNOWN|C[0-9]+ )|signature" | head -8
 RC=${PIPESTATUS[0]}
-cd /repo && git checkout -- . 
+rm -rf $W
 echo "exit=$RC"
